@@ -15,18 +15,23 @@ import (
 
 // Harness describes one harness source file injected into a /repo package.
 type Harness struct {
-	File string // path under VerifDir/harness
-	Pkg  string // e.g. "pkg/procbuilder"
+	File  string   // main file under VerifDir/harness (defines zzDispatch)
+	Extra []string // further files of the same package (shared helpers)
+	Pkg   string   // e.g. "pkg/procbuilder"
 }
 
-func (h Harness) source() []byte {
-	b, err := os.ReadFile(filepath.Join(VerifDir, "harness", h.File))
+func (h Harness) files() []string { return append([]string{h.File}, h.Extra...) }
+
+func readHarness(name string) []byte {
+	b, err := os.ReadFile(filepath.Join(VerifDir, "harness", name))
 	if err != nil {
 		fmt.Println("ENCODING-FAILURE: cannot read harness:", err)
 		os.Exit(2)
 	}
 	return b
 }
+
+func (h Harness) source() []byte { return readHarness(h.File) }
 
 var pkgClause = regexp.MustCompile(`(?m)^package\s+(\w+)`)
 
@@ -44,7 +49,9 @@ func LoadProgram(pkgs []string, hs ...Harness) *symgo.Program {
 	seen := map[string]bool{}
 	for _, h := range hs {
 		dir := filepath.Join(RepoDir, h.Pkg)
-		ov[filepath.Join(dir, "zz_verif_"+strings.TrimSuffix(h.File, ".go")+".go")] = h.source()
+		for _, f := range h.files() {
+			ov[filepath.Join(dir, "zz_verif_"+strings.TrimSuffix(f, ".go")+".go")] = readHarness(f)
+		}
 		if !seen[h.Pkg] {
 			seen[h.Pkg] = true
 			ov[filepath.Join(dir, "zz_verif_prelude.go")] = []byte("package " + h.pkgName() + "\n" + symgo.Prelude)
@@ -161,6 +168,7 @@ func TestZZReplay(t *testing.T) {
 type ReplayFile struct {
 	Property string            `json:"property"`
 	Harness  string            `json:"harness"`
+	Extra    []string          `json:"extra,omitempty"`
 	Pkg      string            `json:"pkg"`
 	Func     string            `json:"func"`
 	Args     []string          `json:"args"`
@@ -201,7 +209,7 @@ func RunReplay(path string) (*ReplayResult, error) {
 	if err := json.Unmarshal(b, &rf); err != nil {
 		return nil, err
 	}
-	h := Harness{File: rf.Harness, Pkg: rf.Pkg}
+	h := Harness{File: rf.Harness, Extra: rf.Extra, Pkg: rf.Pkg}
 	work := filepath.Join(VerifDir, ".work", fmt.Sprintf("replay-%d-%d", os.Getpid(), time.Now().UnixNano()))
 	os.MkdirAll(work, 0o755)
 	defer os.RemoveAll(work)
@@ -209,9 +217,11 @@ func RunReplay(path string) (*ReplayResult, error) {
 	os.WriteFile(pre, []byte("package "+h.pkgName()+"\n"+concretePrelude), 0o644)
 	dir := filepath.Join(RepoDir, rf.Pkg)
 	ov := map[string]map[string]string{"Replace": {
-		filepath.Join(dir, "zz_verif_harness_test.go"): filepath.Join(VerifDir, "harness", rf.Harness),
 		filepath.Join(dir, "zz_verif_prelude_test.go"): pre,
 	}}
+	for _, f := range h.files() {
+		ov["Replace"][filepath.Join(dir, "zz_verif_"+strings.TrimSuffix(f, ".go")+"_test.go")] = filepath.Join(VerifDir, "harness", f)
+	}
 	ovb, _ := json.Marshal(ov)
 	ovf := filepath.Join(work, "overlay.json")
 	os.WriteFile(ovf, ovb, 0o644)
